@@ -91,6 +91,7 @@ def SaCore.spiR (s : SaCore) : Bytes := if s.isInit then s.peerSpi else s.mySpi
 inductive NlOp where
   | newSa (daddr : Bytes) (proto : Nat) (spi : Bytes)
   | delSa (daddr : Bytes) (proto : Nat) (spi : Bytes)
+  | refusedNewSa (daddr : Bytes) (proto : Nat) (spi : Bytes)     -- a NEWSA the kernel did not accept (attempted, without effect)
   | flushSa
   | flushPolicy
   | newPolicy (index : Nat) (dir : Nat)
